@@ -134,6 +134,16 @@ func loadAll(c caseT) {
 	atomic.StoreInt64(&caseStart, time.Now().UnixNano())
 	curCase.Store(c)
 	mutations++
+	if journal != nil {
+		// the case in progress, for the driver to report if this process dies (fixed-size record, one pwrite)
+		rec := make([]byte, 256)
+		for i := range rec {
+			rec[i] = ' '
+		}
+		js, _ := json.Marshal(c)
+		copy(rec, js)
+		journal.WriteAt(rec, 0)
+	}
 	guard(c, "NewConfig", func() { store.NewConfig(root) })
 	guard(c, "NewIndex", func() { store.NewIndex(root) })
 	var head *store.Head
